@@ -1657,6 +1657,15 @@ class Symx:
                 else:
                     st.env[key] = pre + sp.Sum(delta, (i, lo, hi - 1))
                 continue
+            if isinstance(v_out, (sp.Max, sp.Min)) and sym_in in v_out.args:
+                # running maximum / minimum: v = max(v, g(i))  ->  max(v0, MAXRED(g, i, lo, hi-1))
+                rest_ = [a_ for a_ in v_out.args if a_ != sym_in]
+                others_ = [e2 for k2, e2 in entry.items() if k2 != key]
+                if rest_ and not any(r_.has(sym_in) or any(r_.has(o_) for o_ in others_) for r_ in rest_):
+                    g_ = v_out.func(*rest_) if len(rest_) > 1 else rest_[0]
+                    red_ = Function('MAXRED' if isinstance(v_out, sp.Max) else 'MINRED', real=True)(g_, i, lo, hi - 1)
+                    st.env[key] = v_out.func(pre, red_)
+                    continue
             ratio = sp.cancel(v_out / sym_in) if not v_out.has(Piecewise) else None
             if ratio is not None and not ratio.has(sym_in) and not any(ratio.has(o) for k2, o in entry.items() if k2 != key):
                 st.env[key] = pre * sp.Product(ratio, (i, lo, hi - 1))
